@@ -180,7 +180,29 @@ impl Drop for ClockGuard {
 }
 
 fn exec_inner(op: &str, a: &[Value]) -> Value {
+    if op == "VEC" {
+        // [base op, first argument, [second arguments...]] -> [results...]
+        let base = a[0].as_str().unwrap_or_else(|| panic!("harness: VEC base op"));
+        let seconds = a[2].as_array().unwrap_or_else(|| panic!("harness: VEC list"));
+        let parts: Vec<Value> = seconds
+            .iter()
+            .map(|x| match catch_unwind(AssertUnwindSafe(|| exec_inner(base, &[a[1].clone(), x.clone()]))) {
+                Ok(v) => v,
+                Err(p) => {
+                    let msg = p.downcast_ref::<String>().cloned().unwrap_or_default();
+                    if msg.starts_with("harness:") {
+                        std::panic::resume_unwind(p);
+                    }
+                    json!([2, 0])
+                }
+            })
+            .collect();
+        return ok(Value::Array(parts));
+    }
     let (ty, name) = op.split_once('.').unwrap_or_else(|| panic!("harness: bad op {}", op));
+    if ty == "AG" {
+        return exec_agree(name, a);
+    }
     // composite / indexed forms used by the trace specifications
     match name {
         "trunc" | "round" => {
